@@ -7,7 +7,7 @@ RULE = ("(riemann) random arrays on random Domains (lengths 3-96 incl. primes, f
         "transform pair with prefactors 4*pi and 1/(2 pi^2) (theorems toFourier_riemann / toReal_riemann, evaluated independently of scipy's DST) and with the Lean model; (analytic) the families Gaussian "
         "A exp(-a r^2), Yukawa A exp(-kappa r)/r, exponential A exp(-kappa r), sphere indicator, widths/amplitudes resolved by the grid, on refinement families dr, dr/2, dr/4 (also non-5-smooth lengths "
         "N0-1, N0+1 ... at fixed r_max): forward error at every fixed resolved k and backward error at every fixed r > 0 bounded by C*dr with C from the coarsest grid, decreasing under refinement; "
-        "k -> 0 value vs the volume integral. Non-trivial = all; distinct = distinct case")
+        "k -> 0 value vs the volume integral; the transform is reached directly, as a row of a (m, length) stack, or through MatrixArray_to_fourier/_to_real on a MatrixArray object that was used before with other contents. Non-trivial = all; distinct = distinct case")
 EXTRA_TRUSTED = ["closed-form continuous transforms of the Gaussian / Yukawa / exponential / sphere families are textbook formulas used as numerical references only",
                  "scipy.fftpack.dst modelled by its documented direct sums (validated in C07 on every run)"]
 ASSUMPTIONS = ["test functions resolved by the grid (width >= 4 dr) and decayed at r_max", "the O(dr) constant is taken from the coarsest member of the family"]
@@ -64,8 +64,30 @@ def suite_riemann(ctx, case):
     ctx.corr('riemann', case, drv.ask('dom.tf ' + fl(f)), fl(F), rtol=1e-9, scale=float(np.max(np.abs(F))) + 1e-300, what='to_fourier vs model')
     ctx.corr('riemann', case, drv.ask('dom.tr ' + fl(f)), fl(R), rtol=1e-9, scale=float(np.max(np.abs(R))) + 1e-300, what='to_real vs model')
 
+def transform(d, arr, way, via, store):
+    """the same transform reached through the other public entry points: a (m, length) stack of functions (one per row), or a
+    MatrixArray object that already has a past (iterated over and transformed with other contents, then given new data)"""
+    if via == 'stack' or via == 'row':
+        out = (d.to_fourier if way == 'F' else d.to_real)(np.array([arr, 0.5 * arr] if via == 'stack' else [arr]))
+        return np.asarray(out, dtype=float)[0]
+    if via == 'ma':
+        from pyPRISM.core.MatrixArray import MatrixArray
+        from pyPRISM.core.Space import Space
+        N = len(arr); m = store.get(id(d))
+        if m is None:
+            m = store[id(d)] = MatrixArray(length=N, rank=2, space=Space.Real)
+            m.data = np.random.RandomState(5).normal(size=(N, 2, 2)); m.data = m.data + m.data.transpose(0, 2, 1)
+            for _ in m.iterpairs(): pass
+            d.MatrixArray_to_fourier(m)
+        new = np.zeros((N, 2, 2)); new[:, 0, 0] = arr; new[:, 0, 1] = new[:, 1, 0] = arr; new[:, 1, 1] = -arr
+        m.data = new; m.space = Space.Real if way == 'F' else Space.Fourier
+        (d.MatrixArray_to_fourier if way == 'F' else d.MatrixArray_to_real)(m)
+        return np.array(m.data[:, 0, 1], dtype=float)
+    return (d.to_fourier if way == 'F' else d.to_real)(arr)
+
 def suite_analytic(ctx, case):
     name, A, a = case['fam']; f, Fh, vol = fam(name, A, a)
+    via = case.get('via', 'direct'); store = {}
     rmax = case['rmax']; N0 = case['N0']
     errs_f = []; errs_b = []; errs_0 = []; drs = []
     family = [pyPRISM.Domain(length=N, dr=rmax / N) for N in case['Ns']] if case.get('family_first') else None      # all members built before any is used
@@ -74,7 +96,7 @@ def suite_analytic(ctx, case):
         d = family[m] if family else pyPRISM.Domain(length=N, dr=dr)
         ctx.validation_runs += 1
         nk = max(2, N0 // 4)                                  # resolved wavenumbers: the lowest quarter of the coarsest grid
-        F = d.to_fourier(f(d.r))
+        F = transform(d, f(d.r), 'F', via, store)
         kk = d.k[:nk]
         if not np.allclose(kk, (np.arange(1, nk + 1)) * math.pi / rmax, rtol=1e-9):
             ctx.pred('analytic', case, False, 'k grid of Domain(length=%d, dr=%g) is not (j+1) pi / r_max' % (N, dr), key='C08:forward'); return
@@ -91,7 +113,7 @@ def suite_analytic(ctx, case):
         # backward at the fixed r of the coarsest grid (they are grid points of every member when N is a multiple of N0)
         if N % N0 == 0:
             q = N // N0
-            Rb = d.to_real(Fh(d.k))
+            Rb = transform(d, Fh(d.k), 'R', via, store)
             idx = np.arange(q - 1, N, q)[: max(2, N0 // 2)]
             ref = f(d.r[idx])
             sel = d.r[idx] > 2 * rmax / N0
@@ -148,5 +170,5 @@ def generate(ctx):
         else: a = float('%.4g' % (1.0 / rng.uniform(5 * dr0, max(6 * dr0, min(rmax / 14, 40 * dr0)))))
         mode = rng.choice(['x2', 'x2', 'odd'])
         Ns = [N0, 2 * N0, 4 * N0] if mode == 'x2' else [N0, 2 * N0 + rng.choice([-1, 1]), 4 * N0 + rng.choice([-3, -1, 1, 3])]
-        case = {'fam': [name, A, a], 'rmax': rmax, 'N0': N0, 'Ns': Ns, 'family_first': rng.random() < 0.5}
-        ctx.case('analytic', case, True, tags=['fam:' + name, 'refine:' + mode]); suite_analytic(ctx, case)
+        case = {'fam': [name, A, a], 'rmax': rmax, 'N0': N0, 'Ns': Ns, 'family_first': rng.random() < 0.5, 'via': rng.choice(['direct', 'direct', 'stack', 'row', 'ma'])}
+        ctx.case('analytic', case, True, tags=['fam:' + name, 'refine:' + mode, 'via:' + case['via']]); suite_analytic(ctx, case)
